@@ -3,6 +3,7 @@ package main
 import (
 	"context"
 	"fmt"
+	"regexp"
 	"strconv"
 	"strings"
 	"time"
@@ -27,13 +28,22 @@ type c13pSel struct {
 	Val  string `json:"val"`
 }
 
+// c13pSer writes a selector list in the driver's notation `eq|ne|re|nre:<hex name>:<hex value>[:e]` (C17's convention,
+// c17SelectorArg): `:e` = Go's regexp finds the anchored pattern of a =~ / !~ selector in the empty string — the answer
+// the planner's acceptsEmpty gets; the regular-expression engine stays outside the model
 func c13pSer(sels []c13pSel) string {
 	if len(sels) == 0 {
 		return "-"
 	}
 	var ps []string
 	for _, s := range sels {
-		ps = append(ps, c17OpName(s.Op)+":"+hx(s.Name)+":"+hx(s.Val))
+		a := c17OpName(s.Op) + ":" + hx(s.Name) + ":" + hx(s.Val)
+		if s.Op == "=~" || s.Op == "!~" {
+			if re, err := regexp.Compile("^(?:" + s.Val + ")$"); err == nil && re.MatchString("") {
+				a += ":e"
+			}
+		}
+		ps = append(ps, a)
 	}
 	return strings.Join(ps, ",")
 }
@@ -50,7 +60,7 @@ func c13pHexList(xs []string) string {
 }
 
 func c13ModelProfPlans(r *h.Result, rng *h.Rng, n int) error {
-	r.Stream("model-prof-plans: prof.PlanMergeProfiles / PlanMergeTraces / PlanSelectSeries / PlanSeries / PlanLabelNames / PlanLabelValues → String vs renderSel of Prof.mergeProfiles / mergeTraces / selectSeries∘getLabels / filterLabels∘(allTimeSeries | timeSeriesSelect) / labelsNoSel (byte-equal) + confined of the model's plan + hypotheses under lokiCfg + the real dump judged for the request window; process zone varied")
+	r.Stream("model-prof-plans: prof.PlanMergeProfiles / PlanMergeTraces / PlanSelectSeries / PlanSeries / PlanLabelNames / PlanLabelValues → String vs renderSel of Prof.mergeProfiles / mergeTraces / selectSeries∘getLabels / filterLabels∘(allTimeSeries | timeSeriesSelect) / labelsNoSel — the fp sub-select of each is Prof.selectorSel of Prof.plan gre (kvRequired mask, optional OR filter; the accept-empty answer of Go's regexp travels as `:e`) — (byte-equal) + confined of the model's plan + hypotheses under lokiCfg + the real dump judged for the request window; process zone varied")
 	zones := []*time.Location{time.UTC, time.FixedZone("W", -8*3600), time.FixedZone("E", 14*3600)}
 	saved := time.Local
 	defer func() { time.Local = saved }()
@@ -187,6 +197,33 @@ func c13ModelProfPlans(r *h.Result, rng *h.Rng, n int) error {
 		cases = append(cases, c)
 		r.Case(fmt.Sprintf("model-prof-plans:%s:%d:%d:%v:%v:%s", kind, from, to, sels, cluster, z), true)
 		r.Count("model-prof-plans:" + kind)
+		// which of the two shapes of the fp sub-select the case's own selector list asks for (Pyroscope's reading, written
+		// down independently of the planner: c17ProfAcceptsEmpty)
+		if kind != "label-names" && kind != "label-values" {
+			kv, inverted := 0, 0
+			for _, s := range sels {
+				pseudo := false
+				for _, p := range c17Pseudo {
+					pseudo = pseudo || p == s.Name
+				}
+				if !pseudo {
+					kv++
+					if c17ProfAcceptsEmpty(s.Op, s.Val) {
+						inverted++
+					}
+				}
+			}
+			switch {
+			case kv == 0:
+				r.Count("model-prof-plans:fp:no-key-value-selector")
+			case inverted == 0:
+				r.Count("model-prof-plans:fp:every-bit-required")
+			case inverted == kv:
+				r.Count("model-prof-plans:fp:no-bit-required(no-OR-filter)")
+			default:
+				r.Count("model-prof-plans:fp:mixed-mask")
+			}
+		}
 		tight.add("prof-"+kind, from, to, 0, false, 0, sel, kind, c)
 		if i < 6 {
 			r.Sample(map[string]any{"stream": "model-prof-plans", "kind": kind, "sql": truncS(text, 600)})
